@@ -36,10 +36,20 @@ SCHEMAS = {
     "csvh": b'c = [h, * r]\nh = [tstr, tstr]\nr = [tstr, uint]\n',
     "csvf": b'c = [* r]\nr = [tstr, uint .feature "fx"]\n',
     "undef": b'a = b\n',
+    # compiling schemas whose root is NOT the first rule (the root is the first type rule without generic
+    # parameters, wherever it stands)
+    "gen_first": b'message<t> = { body: t }\nroot = message<int>\n',
+    "group_first": b'pair = (n: int, ? x: tstr)\na = { pair }\n',
+    "gens_first": b'm1<t> = { body: t }\nm2<t, u> = [t, u]\ng = (k: int)\nroot = m1<int> / m2<int, tstr>\n',
+    "alt_only": b'root /= { n: int }\nroot /= [* int]\n',           # root defined through /= only
+    "csvgen": b'rows<t> = [* [tstr, t]]\nc = rows<uint>\n',
+    "csvgrp": b'rec = (tstr, uint)\nc = [* [rec]]\n',
     # schemas that do not compile / cannot be read
     "bad": b'a = \n',
     "bad2": b'a = { n: int \n',
     "noroot": b'g = (a: int)\n',
+    "gen_only": b'm<t> = [t]\n',                       # parses, but every type rule is generic: no root
+    "group_gen": b'g = (a: int)\nm<t> = [t]\n',
     "empty": b'',
     "nonutf": b'a = int\n; \xff\xfe\n',
     "dir": DIR,
@@ -48,6 +58,8 @@ SCHEMAS = {
 
 DOCS = {
     "j_ok": b'{"n":1}', "j_x5": b'{"n":1,"x":5}', "j_xa": b'{"n":1,"x":[1]}', "j_xs": b'{"n":1,"x":"\xc3\xa9"}',
+    "j_body": b'{"body":3}', "j_bodys": b'{"body":"x"}', "j_pair": b'[1,"a"]',
+    "c_body": bytes.fromhex("a164626f647903"), "c_bodys": bytes.fromhex("a164626f64796178"), "c_pair": bytes.fromhex("82016161"),
     "j_bad": b'{"n":"q"}', "j_mal": b'{"n":', "j_2": b'2', "j_v": b'"v"', "j_arr": b'[1,2]', "j_arrs": b'["a"]',
     "empty": b'',
     "c_ok": bytes.fromhex("a1616e01"), "c_x5": bytes.fromhex("a2616e01617805"), "c_xa": bytes.fromhex("a2616e0161788101"),
@@ -146,7 +158,7 @@ def run_cli(cli, root, inv):
     return p.returncode, p.stdout.decode("utf-8", "replace")
 
 
-def parse_output(inv, rc, out):
+def parse_output(inv, rc, out, info):
     """observed behaviour in the model's canonical form + side observations"""
     lines = [ANSI.sub("", l).rstrip("\r") for l in out.split("\n")]
     reports, schema_ev, notes = [], "-", []
@@ -178,6 +190,11 @@ def parse_output(inv, rc, out):
             schema_ev = "m"
         elif l.startswith("[INFO] Root type for validation: "):
             root_logged = True
+            # which rule the tool names as the root: its position among the schema's rules
+            _, kinds, names = info
+            rname = l[len("[INFO] Root type for validation: "):]
+            cands = [i for i, n in enumerate(names) if n == rname]
+            schema_ev = "r%d" % cands[0] if cands else "r?"
         elif l.startswith("[INFO] enabled features: "):
             feats_logged = l[len("[INFO] enabled features: "):]
         elif l.startswith("[INFO] ") and l.endswith(" is conformant"):
@@ -188,8 +205,6 @@ def parse_output(inv, rc, out):
         schema_ev = "e"           # main returned Err before the documents: schema unreadable / no parse / no root
     elif errline is not None and not errline.startswith('Error: "'):
         reports.append("!")       # an io::Error (Debug of std::io::Error), not a message produced by error!
-    if root_logged and schema_ev != "-":
-        notes.append("root type logged although the schema was reported missing")
     if inv["cmd"] == "compile":
         canon = "%s X%d" % ("C" if conformant else "-", rc)
     else:
@@ -228,19 +243,33 @@ class Lib:
         for k, o in zip(need_v, out):
             self.v[k] = o
 
-    def schema_code(self, name):
-        """0 ok, 1 missing, 2 unreadable, 3 no parse, 4 no root (Cli.schema_of_code)"""
+    def schema_info(self, name):
+        """(code for Cli.schema_of_code: 0 parsed, 1 missing, 2 unreadable, 3 no parse; rule kinds; rule names)
+        - what the library says about the schema file; whether it has a root is NOT decided here"""
         sch = SCHEMAS[name]
         if sch is None:
-            return 1
+            return 1, "-", []
         if sch == DIR:
-            return 2
-        st = self.s[name]
-        if st == "--":
-            return 2
+            return 2, "-", []
+        st = self.s[name].split(" ")
+        if st[0] == "-":
+            return 2, "-", []
         if st[0] != "1":
-            return 3
-        return 0 if st[1] == "1" else 4
+            return 3, "-", []
+        return 0, st[1], ([] if st[2] == "-" else st[2].split(","))
+
+    def root(self, name):
+        """index of the first type rule without generic parameters (the validators' root), or None;
+        the expectation's own reading of the rule kinds, independent of the Coq model"""
+        code, kinds, _ = self.schema_info(name)
+        return kinds.find("t") if code == 0 and "t" in kinds else None
+
+    def schema_code(self, name):
+        """0 compiles and has a root, 1 missing, 2 unreadable, 3 no parse, 4 parses but has no root type rule"""
+        code = self.schema_info(name)[0]
+        if code != 0:
+            return code
+        return 0 if self.root(name) is not None else 4
 
     def src(self, schema, d, feats, schema_ok):
         """(exists, isfile, utf8, eight verdict characters)"""
@@ -263,12 +292,13 @@ def model_line(lib, inv):
         code = {0: 0, 4: 0, 1: 1, 2: 2, 3: 3}[lib.schema_code(inv["schema"])]     # compile-cddl does not ask for a root type
         return "C\t%d\t%d" % (inv["ci"], code)
     sc = lib.schema_code(inv["schema"])
+    mcode, kinds, _ = lib.schema_info(inv["schema"])
     def srcs(names):
         if not names:
             return "-"
         return ",".join("%s:%s" % lib.src(inv["schema"], d, inv["feats"], sc == 0) for d in names)
     return "\t".join(["V", "%d" % inv["ci"], "%d" % inv["hdr"],
-                      "-" if inv["feats"] is None else str(len(inv["feats"])), str(sc),
+                      "-" if inv["feats"] is None else str(len(inv["feats"])), str(mcode), kinds,
                       srcs(inv["j"]), srcs(inv["c"]), srcs(inv["s"]),
                       "-" if inv["stdin"] is None else srcs([inv["stdin"]])])
 
@@ -286,7 +316,9 @@ def coq_expr(lib, inv):
         return "[" + "; ".join(ds(d) for d in names) + "]"
     f = "None" if inv["feats"] is None else "(Some [%s])" % ";".join(str(i + 1) for i in range(len(inv["feats"])))
     si = "None" if inv["stdin"] is None else "(Some (%s))" % ds(inv["stdin"])
-    return "case_validate %s %s %s %d %s %s %s %s" % (B(inv["ci"]), B(inv["hdr"]), f, sc,
+    mcode, kinds, _ = lib.schema_info(inv["schema"])
+    rules = "[" + ";".join({"t": "0", "g": "1", "G": "2"}[k] for k in kinds if k != "-") + "]"
+    return "case_validate %s %s %s %d %s %s %s %s %s" % (B(inv["ci"]), B(inv["hdr"]), f, mcode, rules,
                                                          dl(inv["j"]), dl(inv["c"]), dl(inv["s"]), si)
 
 
@@ -323,10 +355,10 @@ def expectation(lib, inv):
         else:
             use = J_F if fl[2] == "1" else C_F
         slots.append(("%s%d" % (r, i), r, fl, bits, use))
-    return render_expect(inv, slots), slots
+    return render_expect(inv, slots, lib.root(inv["schema"])), slots
 
 
-def render_expect(inv, slots):
+def render_expect(inv, slots, root):
     reps, fail = [], False
     for slot, r, fl, bits, use in slots:
         if r != "i" and fl[0] == "0":
@@ -341,7 +373,7 @@ def render_expect(inv, slots):
         if o != "+" and inv["ci"]:
             fail = True
             break
-    return " ".join(["-"] + reps + ["X%d" % fail])
+    return " ".join(["r%d" % root] + reps + ["X%d" % fail])
 
 
 def features_dropped(inv, slots, observed):
@@ -361,7 +393,17 @@ def features_dropped(inv, slots, observed):
 # ---------------------------------------------------------------------------
 
 OK_SCHEMAS = ["plain", "feat", "featy", "uint", "any", "csv", "csvh", "csvf", "undef"]
-BAD_SCHEMAS = ["bad", "bad2", "noroot", "empty", "nonutf", "dir", "missing"]
+ROOT_LATER = ["gen_first", "group_first", "gens_first", "alt_only", "csvgen", "csvgrp"]      # root is not the first rule
+BAD_SCHEMAS = ["bad", "bad2", "noroot", "gen_only", "group_gen", "empty", "nonutf", "dir", "missing"]
+# valid / invalid documents of the ROOT_LATER schemas per route (j, c, s); stdin gets the j and c ones
+ROOT_DOCS = {
+    "gen_first": {"j": ["j_body", "j_bodys"], "c": ["c_body", "c_bodys"], "s": ["s_ok"]},
+    "group_first": {"j": ["j_ok", "j_xs", "j_bad"], "c": ["c_ok", "c_bad"], "s": ["s_ok"]},
+    "gens_first": {"j": ["j_body", "j_pair", "j_bodys"], "c": ["c_body", "c_pair", "c_bodys"], "s": ["s_ok"]},
+    "alt_only": {"j": ["j_ok", "j_arr", "j_v"], "c": ["c_ok", "c_arr", "c_v"], "s": ["s_ok"]},
+    "csvgen": {"j": ["j_arr"], "c": ["c_arr"], "s": ["s_ok", "s_bad", "s_q"]},
+    "csvgrp": {"j": ["j_arr"], "c": ["c_arr"], "s": ["s_ok", "s_bad"]},
+}
 GOOD_DOCS = [d for d in DOCS if d not in ("missing", "dir", "nonutf")]
 
 
@@ -375,12 +417,15 @@ def gen_invocations(rng, tier, wide=False):
     full = tier != "quick"
     # (A) single-document sweep: every schema x document x route, configurations sampled
     configs = [(ci, hdr, f) for ci in (False, True) for hdr in (False, True) for f in FEATS]
-    for sch in OK_SCHEMAS:
+    for sch in OK_SCHEMAS + ROOT_LATER:
         for d in DOCS:
-            for r in ("jcsi" if full or wide else rng.sample("jcsi", 2)):     # quick: two of the four routes per pair
+            if sch in ROOT_LATER and not (full or wide) and rng.random() < 0.5:
+                continue
+            # quick: two of the four routes per pair (one for the root-position schemas, which have their own class)
+            for r in ("jcsi" if full or wide else rng.sample("jcsi", 1 if sch in ROOT_LATER else 2)):
                 if r == "i" and d in ("missing", "dir"):
                     continue
-                relevant = rng.sample(configs, 12) if full else rng.sample(configs, 3 if wide else 1)
+                relevant = rng.sample(configs, 8) if full else rng.sample(configs, 3 if wide else 1)
                 for ci, hdr, f in relevant:
                     if hdr and r != "s" and not full:
                         hdr = rng.random() < 0.2
@@ -397,6 +442,18 @@ def gen_invocations(rng, tier, wide=False):
                         for hdr in ((False, True) if r == "s" else (False,)):
                             kw = {"j": [d]} if r == "j" else {"c": [d]} if r == "c" else {"s": [d]} if r == "s" else {"stdin": d}
                             invs.append(mk(ci=ci, hdr=hdr, feats=f, schema=sch, style=rng.randrange(1 << 30), cls="sensitive", **kw))
+    # (B2) root position, exhaustive: schemas whose root is not the first rule x their valid and invalid documents
+    #      x every route incl. stdin x --ci (the tool must find the root the validators use, and report the verdicts)
+    for sch in ROOT_LATER:
+        for ci in (False, True):
+            for r in "jcs":
+                for d in ROOT_DOCS[sch][r]:
+                    invs.append(mk(ci=ci, hdr=False, feats=None, schema=sch, style=rng.randrange(1 << 30), cls="root-position", **{r: [d]}))
+                    if r != "s":
+                        invs.append(mk(ci=ci, feats=None, schema=sch, stdin=d, style=rng.randrange(1 << 30), cls="root-position"))
+            # one multi-route invocation per schema: first document of each route
+            invs.append(mk(ci=ci, feats=rng.choice(FEATS), schema=sch, j=ROOT_DOCS[sch]["j"][:1], c=ROOT_DOCS[sch]["c"][:1],
+                           s=ROOT_DOCS[sch]["s"][:1], stdin=ROOT_DOCS[sch]["j"][0], style=rng.randrange(1 << 30), cls="root-position"))
     # (C) schemas that do not compile / cannot be read / are missing, on every route
     for sch in BAD_SCHEMAS:
         for ci in (False, True):
@@ -430,7 +487,7 @@ def gen_invocations(rng, tier, wide=False):
     #     failing / missing / unreadable ones placed early, in the middle and last (masking in both directions)
     n_multi = (1350 if wide else 450) if tier == "quick" else 8000
     for _ in range(n_multi):
-        sch = rng.choice(OK_SCHEMAS if rng.random() < 0.93 else BAD_SCHEMAS)
+        sch = rng.choice((OK_SCHEMAS + ROOT_LATER) if rng.random() < 0.93 else BAD_SCHEMAS)
         def pick():
             x = rng.random()
             if x < 0.08:
@@ -471,6 +528,11 @@ def gen_invocations(rng, tier, wide=False):
 
 def corpus():
     out = []
+    # a defect seeded into root_type_name_from_cddl_str (looked only at the first type rule) escaped an earlier
+    # version of this check: first rule generic, root second, {"body":3} valid
+    for ci in (True, False):
+        out.append(mk(ci=ci, schema="gen_first", j=["j_body"], style=6, cls="corpus"))
+        out.append(mk(ci=ci, schema="gen_first", stdin="j_body", style=7, cls="corpus"))
     for ci in (True, False):
         for f in (["fx"], ["zz", "fx"], None):
             out.append(mk(ci=ci, feats=f, schema="feat", c=["c_x5"], style=1, cls="corpus"))            # cli.rs:230
@@ -490,7 +552,7 @@ def evaluate(cli, lib, orc, root, invs):
     with ThreadPoolExecutor(max_workers=common.NPROC) as ex:
         raw = list(ex.map(lambda inv: run_cli(cli, root, inv), invs))
     model = common.run_tool(orc, [model_line(lib, inv) for inv in invs])
-    obs = [parse_output(inv, rc, out) for inv, (rc, out) in zip(invs, raw)]
+    obs = [parse_output(inv, rc, out, lib.schema_info(inv["schema"])) for inv, (rc, out) in zip(invs, raw)]
     return raw, obs, model
 
 
@@ -526,10 +588,10 @@ def run(tier, seed):
             routes = "".join(r for r in "jcs" if inv[r]) + ("i" if inv["stdin"] is not None else "")
             if inv["cmd"] == "compile":
                 oc = ("exit%d" % rc) + ("/conformant" if o["canon"].startswith("C") else "/not-conformant")
-            elif o["canon"][0] != "-":
+            elif o["canon"][0] in "me":
                 oc = ("exit%d" % rc) + "/schema-" + {"m": "missing", "e": "error"}[o["canon"][0]]
             else:
-                oc = ("exit%d" % rc) + ("/some-fail" if re.search(r"[-?!]( |$)", o["canon"][1:]) else "/all-ok")
+                oc = ("exit%d" % rc) + ("/some-fail" if re.search(r"[-?!]( |$)", o["canon"][2:]) else "/all-ok")
             key = "%s|%s|ci=%d|feats=%s" % (inv["cmd"], routes or "-", inv["ci"], "yes" if inv["feats"] else "no")
             hist.setdefault(key, {})
             hist[key][oc] = hist[key].get(oc, 0) + 1
@@ -589,8 +651,8 @@ def run(tier, seed):
             "distinct_nontrivial": len(distinct),
             "rule": "every invocation runs the real binary, the extracted model and the expectation; distinct_nontrivial = distinct "
                     "(schema, flags, document lists) validate invocations whose schema compiles and that name at least one existing document or stdin. "
-                    "Classes: corpus = witnesses of the repaired feature-dropping findings on all five call sites; single = every compiling schema x every document x every route (quick: two sampled routes per pair and one sampled configuration; thorough: all routes x 12 of the 24 configurations); "
-                    "sensitive = feature/header/sniffing-deciding schema-document pairs x every route x --ci x every feature list x --csv-header, exhaustive; "
+                    "Classes: corpus = witnesses of the repaired feature-dropping findings on all five call sites; single = every compiling schema x every document x every route (quick: two sampled routes per pair and one sampled configuration; thorough: all routes x 8 of the 24 configurations); "
+                    "root-position = schemas whose root is the 2nd-4th rule (after generic type rules / group rules / defined by /= only) x valid and invalid documents x every route x --ci, exhaustive; sensitive = feature/header/sniffing-deciding schema-document pairs x every route x --ci x every feature list x --csv-header, exhaustive; "
                     "bad-schema = every non-compiling / unreadable / missing schema x --ci x every route; masking = a missing / unreadable / failing document alone, before, after and between valid ones on every file route x --ci, and next to a valid document of another route, exhaustive; compile = compile-cddl on every schema x --ci; "
                     "multi = random 0-3 files per flag + stdin with missing / unreadable / failing documents in random positions; multi-valid = all documents valid",
             "class_histogram": classes,
@@ -602,11 +664,12 @@ def run(tier, seed):
             "features_log_line_checked": n_feat_logged,
             "vm_compute_slice": len(sl),
             "exhaustive": True,
-            "exhaustive_scope": ["sensitive: 6 schemas x listed documents x {json,cbor,csv,stdin} x --ci x 6 feature lists x --csv-header (csv)",
+            "exhaustive_scope": ["root-position: 6 schemas whose root is not the first rule x valid/invalid documents x {json,cbor,csv,stdin} x --ci", "sensitive: 6 schemas x listed documents x {json,cbor,csv,stdin} x --ci x 6 feature lists x --csv-header (csv)",
                                  "bad-schema: 7 schema defects x --ci x 4 routes", "masking: {missing, directory, non-UTF-8, rejected} x 4 placements x 3 routes x --ci + cross-route pairs", "compile-cddl: %d schema files x --ci" % len(SCHEMAS)],
             "samples": [{"argv": argv_of(inv), "observed": o["canon"], "model": m} for inv, o, m in list(zip(invs, obs, model))[::max(1, len(invs) // 8)][:8]],
         })
         res.assumptions = [
+            "whether the schema has a root type rule, and which rule it is, is computed by the model from the rule kinds of the AST returned by cddl_from_str (driver c18 command S); root_type_name_from_cddl_str is NOT consulted by the check, it is part of the tool under check and its answer is observed through the `Root type for validation` line",
             "the library is a parameter of the model (lib : call -> bool); its verdicts are taken from the real crate through harness/src/bin/c18.rs",
             "clap argument parsing, file-system access, the logger (simplelog) and the exit status produced by returning Err from main are exercised on the real binary, not modelled",
             "Path::exists / fs::read_to_string / File::open outcomes enter the model as the flags exists / isfile / utf8 of each document",
